@@ -137,6 +137,16 @@ func workerRules(c *Ctx) {
 			ok := P.Before(q.fn, an.Is(calls[0]), closes[0]) && an.IsLoadOfField(callArg(closes[0], 0), "Worker.done") && len(calls) == 1 && !P.InCycle(calls[0])
 			q.add("PATH", "done is closed only after the function returned", ok, pickS(ok, "close(x.done) dominated by the single call of fn", "done can be closed before the function returned"), closes[0])
 		}
+		// the watcher keeps Worker.mu from its decision to stop until <-x.done returns: the instance must reach fn and
+		// close(done) without ever needing that mutex, or the two wait for each other (and every later Do with them)
+		var acq []string
+		for _, o := range c.sel(func(o *an.Oblig) bool {
+			return o.Rule == "P" && o.Func == "(*Worker).do" && strings.HasPrefix(o.Subject, "acquire:Worker.mu")
+		}) {
+			acq = append(acq, o.Pos...)
+		}
+		q.add("B", "the instance never takes Worker.mu", len(acq) == 0,
+			pickS(len(acq) == 0, "do() and its callees acquire no Worker lock", "do() locks Worker.mu, which the watcher holds while it waits for do() to close done: a holder that is done before the instance got going deadlocks the Worker"), nil)
 	}
 }
 
@@ -153,7 +163,7 @@ func init() {
 				if isUndecided(o) || o.Rule == "ANCHOR" {
 					return true
 				}
-				return ruleIn(o, "G", "AT", "B", "P", "REQ") && funcHas(o, "(*Worker)")
+				return ruleIn(o, "G", "AT", "B", "P", "PX", "REQ") && funcHas(o, "(*Worker)")
 			})
 			return append(out, c.C.List...)
 		},
